@@ -24,6 +24,7 @@ type Profile struct {
 	Sample    bool // draw a fresh path universe per trace (sampledFamily)
 	NoInitCfg bool // do not start with init+identity
 	CfgVals   []string
+	RawOnly   []string // sub-commands the CLI-grammar events ("raw") are restricted to (empty = all)
 }
 
 var famSib = []string{"lib/a", "lib/b", "lib.go", "lib-old", "lib0", "a", "test/x", "test/y", "test.c", "test-data", "test0"}
@@ -408,13 +409,32 @@ var subcmds = []struct {
 // from the classes valid / missing / surplus / malformed id / non-existent path / regexp metacharacters.
 func (p *Profile) genRaw(rng *rand.Rand, tr *Trace, wtFiles, tracked, branches []string) M {
 	sc := subcmds[rng.Intn(len(subcmds))]
+	if len(p.RawOnly) > 0 {
+		for tries := 0; tries < 200 && !containsStr(p.RawOnly, sc.name); tries++ {
+			sc = subcmds[rng.Intn(len(subcmds))]
+		}
+	}
 	argv := []string{}
 	if sc.name != "" {
 		argv = append(argv, sc.name)
 	}
 	valueFlags := map[string]bool{"-m": true, "--message": true, "-n": true, "--max-count": true, "-r": sc.name == "branch", "--rename": true, "-d": true, "--delete": true, "-c": true, "--create": true}
+	refCmd := sc.name == "branch" || sc.name == "switch" || sc.name == "update-ref" || sc.name == "rev-parse"
 	argPool := func() string {
 		st := tr.Cur
+		if refCmd && rng.Intn(2) == 0 {
+			// the branch commands mostly get branch names: existing ones, new ones, refs/heads/ spellings
+			var b string
+			if len(branches) > 0 && rng.Intn(3) > 0 {
+				b = branches[rng.Intn(len(branches))]
+			} else {
+				b = p.Branches[rng.Intn(len(p.Branches))]
+			}
+			if sc.name == "update-ref" && rng.Intn(2) == 0 {
+				return "refs/heads/" + b
+			}
+			return b
+		}
 		switch rng.Intn(12) {
 		case 0:
 			if len(wtFiles) > 0 {
@@ -477,7 +497,7 @@ func (p *Profile) genRaw(rng *rand.Rand, tr *Trace, wtFiles, tracked, branches [
 		// acts and a later one may fail, so a non-zero exit does not mean that nothing was done
 		ru = false
 	}
-	return M{"ev": "raw", "argv": av, "ru": ru, "dom": false}
+	return M{"ev": "raw", "argv": av, "ru": ru, "dom": false, "sub": sc.name}
 }
 
 func annotated(T *Tables, ev M) M {
@@ -711,4 +731,13 @@ func storedContents(tr *Trace) []string {
 		}
 	}
 	return out
+}
+
+func containsStr(l []string, x string) bool {
+	for _, y := range l {
+		if y == x {
+			return true
+		}
+	}
+	return false
 }
